@@ -30,6 +30,8 @@ def run(ctx):
     r3_discipline(ctx)
     r4_verbatim(ctx, it)
     shared.whole_cell_consumption(ctx, 'R5')
+    from .. import regen
+    regen.check(ctx, 'R6')
 
 
 def _resets(ctx, fi, stmt_or_call, target_src):
